@@ -151,6 +151,19 @@ def _check(spec, tier, seed, replay, res, scratch, t0):
     if not names:
         res.ob("props/%s.v states at least one theorem" % prop, "proof", False, "")
 
+    # 3a. thorough tier: independent re-check of the compiled closure with coqchk (prints the axioms it relies on)
+    if tier == "thorough" and not replay_obj and not os.environ.get("VERIF_NO_COQCHK"):
+        t = time.time()
+        with core.Lock(os.path.join(core.COQ, ".build.lock")):
+            crc, cout = core.sh(["coqchk", "-silent", "-o", "-Q", ".", "V", "V.props.%s" % prop], cwd=core.COQ, timeout=3000)
+        res.cmds.append("coqchk -silent -o -Q coq V V.props.%s  (%.0fs)" % (prop, time.time() - t))
+        import re as _re
+        m = _re.search(r"Axioms:\s*(.*?)(?:\n\s*\n|\Z)", cout, _re.S)
+        axioms = (m.group(1).strip() if m else "?")
+        bad_modes = [l for l in cout.splitlines() if ("type-in-type" in l or "unsafe" in l or "assumed" in l) and "<none>" not in l]
+        res.coqchk = dict(rc=crc, axioms=axioms, tail=cout[-1200:])
+        res.ob("coqchk re-checks props/%s.vo and its dependencies" % prop, "proof", crc == 0 and not bad_modes, cout[-1500:])
+
     # 3b. property specific extra obligations (finite sweeps, C drivers, strace...)
     if spec.get("extra"):
         spec["extra"](spec, res, scratch, tier, seed)
@@ -276,7 +289,10 @@ def write_evidence(spec, res, tier, seed, wall, violations, met):
         obligation_list=[dict(name=o["name"], kind=o["kind"], ok=o["ok"]) for o in res.obligations],
         known_findings_met=list(met.keys()),
         coq_eval_seconds=round(res.coq_s, 1),
+        coq_files=getattr(res, "closure", []),
     )
+    if getattr(res, "coqchk", None):
+        cov["coqchk"] = res.coqchk
     ev = dict(property_id=prop, tier=tier, seed=seed, level="proof", coverage=cov,
               assumptions=spec.get("assumptions", []), wall_s=round(wall, 1), violations=violations)
     os.makedirs(os.path.join(core.ROOT, "evidence"), exist_ok=True)
